@@ -2,13 +2,13 @@ package sim
 
 import (
 	"context"
-	"strconv"
-	"sync"
 	"fmt"
 	"math/rand/v2"
 	"net"
 	"net/netip"
 	"os"
+	"strconv"
+	"sync"
 	"sync/atomic"
 	"syscall"
 	"testing"
@@ -64,10 +64,10 @@ type freeEndpoint struct {
 }
 
 type freeWorld struct {
-	sc   *Scenario
-	neps atomic.Int32
+	sc     *Scenario
+	neps   atomic.Int32
 	failed atomic.Int32
-	lis  []*net.TCPListener
+	lis    []*net.TCPListener
 
 	// handshake phase only (before the engines' goroutines exist): SYN-ACKs of every accepted
 	// connection, seen by every capture handle as on a real wire
